@@ -53,6 +53,11 @@ func nextPhone(v2019 bool) []byte {
 	if p[0] == 0 { // keep the decimal rendering full length and distinct from other lengths
 		p[0] = 0x10
 	}
+	// a second byte that differs between consecutive numbers: the numbers of one script differ in two bytes, so a
+	// one-byte mutation of a frame (random-or-mutated) cannot turn one connection's number into another's - two
+	// connections of one script never compete for a key unless the script says so (and then it synchronises)
+	c7 := phoneCounter * 7 % 100
+	p[1] = byte(c7/10<<4 | c7%10)
 	return p
 }
 
@@ -108,6 +113,11 @@ func (s *script) probeRefused(k int, v2019 bool, bcd []byte) {
 // runner recognises the answer by the serial it echoes)
 func (s *script) probeSer(k int, v2019 bool, bcd []byte, ser uint16) {
 	s.toks = append(s.toks, fmt.Sprintf("P%d:%s", k, Hx(Frame808(0x0002, v2019, bcd, ser, nil))))
+}
+
+// claimReleased: connection k is the new session of a key whose owner has just gone (token U, see the runner)
+func (s *script) claimReleased(k int, v2019 bool, bcd []byte) {
+	s.toks = append(s.toks, fmt.Sprintf("U%d:%s", k, Hx(Frame808(0x0002, v2019, bcd, uint16(0xE000+k), nil))))
 }
 
 func (s *script) probe(k int, v2019 bool, bcd []byte) {
@@ -539,11 +549,8 @@ func gen808(c *Ctx, pa string, budget time.Duration) {
 		s.probeRefused(k2, v, bcd)
 		s.probe(k1, v, bcd)
 		s.F(k1)
-		s.toks = append(s.toks, "W")
 		k3 := s.hostile()
-		s.O(k3)
-		s.D(k3, Frame808(0x0002, v, bcd, 3, nil))
-		s.probe(k3, v, bcd)
+		s.claimReleased(k3, v, bcd) // repeated until accepted: the release of k1's key is what is waited for, not a time
 		s.expK = map[int]string{k2: "closed", k3: "open"}
 		finish(s)
 	}
@@ -611,11 +618,8 @@ func gen808(c *Ctx, pa string, budget time.Duration) {
 			} else {
 				s.F(k1)
 			}
-			s.toks = append(s.toks, "W")
 			k2 := s.hostile()
-			s.O(k2)
-			s.D(k2, Frame808(0x0002, v, bcd, 9, nil))
-			s.probe(k2, v, bcd)
+			s.claimReleased(k2, v, bcd) // the old connection's leave is asynchronous: the claim is repeated until accepted
 			s.expK = map[int]string{k2: "open"}
 			finish(s)
 		}
@@ -963,8 +967,12 @@ func genAtt(c *Ctx, budget time.Duration) {
 			s.D(k, Frame808(0x1210, s.g2019, s.gBcd, 1, Body1210(d, pre, 0, -1, []AttItem{{Name: gname, Size: uint32(len(evil))}})))
 			s.D(k, Chunk(d, gname, 0, evil))
 			s.D(k, Frame808(0x1212, s.g2019, s.gBcd, 2, Body1211(gname, 0, uint32(len(evil)))))
+			// the intruder takes all its answers before it closes (a probe: awaited): a close that overtakes an answer
+			// would make that write fail, the upload would end as a FailQuit and nothing would be stored - the order of
+			// the close and the server's writes must not be left to the scheduler
+			s.probe(k, s.g2019, s.gBcd)
 			s.F(k)
-			s.toks = append(s.toks, "W", "X:"+path+":"+Hx(evil), "X:"+path+":"+Hx(gdata)) // not the intruder's bytes; still the good upload's
+			s.toks = append(s.toks, "X:"+path+":"+Hx(evil), "X:"+path+":"+Hx(gdata)) // not the intruder's bytes; still the good upload's
 			s.expX = "01"
 			s.acceptAtt()
 			run(c, s)
@@ -1022,7 +1030,7 @@ func c10(c *Ctx) {
 	ContainDir = filepath.Join(c.Out, "contain")
 	os.MkdirAll(ContainDir, 0o755)
 	defer C10StopChildren()
-	b808, batt := 40*time.Second, 40*time.Second
+	b808, batt := 36*time.Second, 36*time.Second
 	if !c.Quick() {
 		b808, batt = 20*time.Minute, 15*time.Minute
 	}
@@ -1057,6 +1065,9 @@ func c10(c *Ctx) {
 	for kind, n := range C10LateAnswers {
 		c.Dist[kind+"/late-answer"] += n
 	}
+	c.Extra["claims_repeated_until_key_released"] = C10ClaimRepeats
+	c.Extra["frame_count_waits_unmet_samples"] = C10WaitUnmetSamples
+	c.Extra["frame_count_waits_unmet"] = C10WaitUnmet // a wait target predicted too high: costs ContainWaitAnswer each, decides nothing
 	if os.Getenv("VERIF_C10_ONLY") == "" {
 		memory808(c) // 2 s: the finding is reproduced in every tier
 		growth(c)    // 1 s: the quick-tier witness of the two unbounded-buffer findings
